@@ -691,6 +691,45 @@ pub fn plan_for(property: &str, seed: u64) -> Plan {
             plan.time_cap_us = plan.time_cap_us.min(60_000_000);
             plan
         }
+        "C09" | "C10" => {
+            // bulk transfers that become congestion- and loss-limited; no corruption (it only
+            // looks like loss), no rebinding (one path, so the per-path figures are attributable)
+            let p = Profile {
+                max_conns: 2,
+                max_streams: 4,
+                max_stream_bytes: if r.chance(1, 4) { 3 << 20 } else { 400_000 },
+                fault_rates_permille: &[0, 5, 20, 50, 150, 300],
+                corrupting: false,
+                ..Default::default()
+            };
+            let mut plan = base_plan(seed, property, "c09.recovery", &mut r, &p);
+            for c in plan.conns.iter_mut() {
+                c.rebinds.clear();
+            }
+            // outages long enough for several consecutive PTO expiries
+            let end = r.pick(&[2_000_000u64, 10_000_000, 40_000_000]);
+            for _ in 0..r.below(3) {
+                let from = r.below(end);
+                let len = r.pick(&[50_000u64, 500_000, 3_000_000, 10_000_000]);
+                plan.faults.push(Fault {
+                    when: When::Window {
+                        dir: match r.below(3) {
+                            0 => Some(Dir::C2S),
+                            1 => Some(Dir::S2C),
+                            _ => None,
+                        },
+                        from_us: from,
+                        to_us: (from + len).min(end),
+                        permille: 1000,
+                        key: r.next(),
+                    },
+                    action: Action::Drop,
+                });
+            }
+            plan.faults_end_us = Some(end);
+            plan.time_cap_us += end;
+            plan
+        }
         "C13" => {
             let p = Profile {
                 max_conns: 3,
